@@ -159,6 +159,6 @@ var bigC01 = &vh.Prop[bigCase]{ID: "C01", Name: "big-lengths", Gen: genBig, Run:
 
 func init() { registrars = append(registrars, bigC02.Register, bigC05.Register, bigC01.Register) }
 
-func TestC02Big(t *testing.T) { bigC02.Check(t, vh.N(60, 600)) }
-func TestC05Big(t *testing.T) { bigC05.Check(t, vh.N(40, 400)) }
-func TestC01Big(t *testing.T) { bigC01.Check(t, vh.N(40, 400)) }
+func TestC02Big(t *testing.T) { bigC02.Check(t, vh.N(60, 150)) }
+func TestC05Big(t *testing.T) { bigC05.Check(t, vh.N(40, 100)) }
+func TestC01Big(t *testing.T) { bigC01.Check(t, vh.N(40, 100)) }
